@@ -369,6 +369,28 @@ func faultingAnkoFrame(stderr string) string {
 	return ""
 }
 
+// faultThroughReflect reports whether the goroutine that detected the fault reached the map through
+// package reflect (every script container is a reflect value) before its innermost anko frame.
+func faultThroughReflect(stderr string) bool {
+	i := strings.Index(stderr, "\ngoroutine ")
+	if i < 0 {
+		return true
+	}
+	block := stderr[i+1:]
+	if j := strings.Index(block, "\n\n"); j >= 0 {
+		block = block[:j]
+	}
+	for _, l := range strings.Split(block, "\n") {
+		if strings.HasPrefix(l, "github.com/mattn/anko/") {
+			return false
+		}
+		if strings.HasPrefix(l, "reflect.") {
+			return true
+		}
+	}
+	return true
+}
+
 func classifyDeath(stderr string) outcome {
 	first := ""
 	for _, l := range strings.Split(stderr, "\n") {
@@ -388,6 +410,9 @@ func classifyDeath(stderr string) outcome {
 		// script containers: a fault detected inside an env method is a crash of the host.
 		if site := faultingAnkoFrame(stderr); strings.HasPrefix(site, "github.com/mattn/anko/env.") {
 			return outcome{Status: "crash", Msg: first + " [interpreter scope tables]\n" + site}
+		} else if site != "" && !faultThroughReflect(stderr) {
+			// a map the interpreter keeps for itself (a script container is only ever reached through reflect)
+			return outcome{Status: "crash", Msg: first + " [a map of the interpreter itself]\n" + site}
 		}
 		return outcome{Status: "concurrent-map", Msg: first}
 	case strings.HasPrefix(first, "panic:") || strings.HasPrefix(first, "fatal error:"):
